@@ -9,8 +9,8 @@ CONSTANTS
   d1 = "d1"
   l1 = "l1"
   l2 = "l2"
-  Call = {"c1", "c2", "d1"}
-  LCall = {"l1", "l2"}
+  Call = {"a1", "b1", "b2"}
+  LCall = {}
   CallDef <- MCCallDef
   LDef <- MCLDef
   PeerOrder <- MCPeerOrder
